@@ -123,6 +123,37 @@ def register_family_cases(g):
     return doc, insts, "register-family-%s" % ("same" if l1 == l2 else "other")
 
 
+def register_width_calls(g):
+    """a register family bound at 64 bits by its first occurrence and used again with a width suffix: the later
+    occurrence matches exactly the name of the SAME architectural register at THAT width (x86 naming table REGS),
+    not another register of the family, not the same register at another width"""
+    fam = g.pick(["&genreg", "&genreg", "&indreg", "&indreg", "&stackreg", "&basereg"])
+    t = REGS[fam]
+    widths = [w for w in t if w != "letters"]
+    base = fam + g.pick(["", "-1", "-x", "_2"])
+    n1 = base + g.pick(["", ".64"])
+    w2 = g.pick(widths)
+    l1 = g.pick(t["letters"])
+    k = g.int(0, 2)
+    l3, w3 = l1, w2
+    if k == 1 and len(t["letters"]) > 1:
+        l3 = g.pick([x for x in t["letters"] if x != l1])                 # another register of the family, same width
+    elif k == 2:
+        w3 = g.pick([w for w in widths if w != w2])                       # the same register at another width
+
+    def reg(w, letter):
+        f = t[w]
+        return "%" + (f % letter if "%s" in f else f)
+    m1, m2 = g.pick(["push", "inc"]), g.pick(["mov", "xor", "cmp"])
+    second_first = g.chance(0.5)
+    ops2 = [n2 := base + "." + w2, "r11"] if second_first else ["r11", n2 := base + "." + w2]
+    doc = {"pattern": [{m1: [n1]}, {m2: ops2}]}
+    o2 = [reg(w3, l3), "%r11b"] if second_first else ["%r11b", reg(w3, l3)]
+    insts = [("1000", m1, [reg("64", l1)]), ("1002", m2, o2), ("1006", "ret", [])]
+    exp = (l3 == l1 and w3 == w2)
+    return doc, insts, exp, "register-width-%s-%s" % (w2, "same" if exp else "other-register" if l3 != l1 else "other-width-" + w3)
+
+
 def register_family_in_deref(g):
     """a register family bound by a plain operand and used again, at 64 bits, as a component of a `$deref`: the memory
     operand must be based on the SAME architectural register"""
@@ -166,15 +197,16 @@ def capture_in_deref(g):
 
 def run(ctx, factor):
     rep = ctx.report
-    for it in range(ctx.budget(40, 900) * factor):
-        doc, insts, exp, tag = register_family_in_deref(ctx.g) if it % 2 else capture_in_deref(ctx.g)
+    for it in range(ctx.budget(60, 1500) * factor):
+        doc, insts, exp, tag = (register_width_calls(ctx.g) if it % 3 == 0 else register_family_in_deref(ctx.g) if it % 3 == 1
+                                else capture_in_deref(ctx.g))
         o = patdiff.observe(ctx, doc, insts, modes=("bool",))
         usable = patdiff.correspondence(ctx, o)
         if o.get("impl_bool") is not None and o["impl_bool"] != ("ok", exp):
             # the recorded register-family findings (D5, D15) cover a violation only where the pinned model shows it too
             mo = o.get("model")
             model_found = bool(mo[1].get("first")) if mo and mo[0] == "ok" else None
-            rep.violate("register-family-inside-deref", patdiff.case_of(o), {"found": exp}, {"found": o.get("impl_bool")},
+            rep.violate("register-width-call" if tag.startswith("register-width") else "register-family-inside-deref", patdiff.case_of(o), {"found": exp}, {"found": o.get("impl_bool")},
                         model_agrees_with_spec=(model_found == exp) if model_found is not None else None)
         rep.case(patdiff.case_of(o), o.get("impl_bool", ("", ""))[0] == "ok", tags=[tag])
         if rep.has_new() and factor > 1:
